@@ -1,5 +1,6 @@
 import RzilVerif.Model.CarveSem
 import RzilVerif.Lemmas.SemSort
+import RzilVerif.Lemmas.SemLow
 /-!
 # T2-semantic for expressions
 
@@ -349,37 +350,138 @@ theorem condIL_initACast_sem (t : VT) {a f : CE}
 
 end
 
+/-! ## low-bits macro calls (`lb = true`, assumption `MsLow ms`) -/
+
+section
+variable {ms : MacroSem} {σ : MState}
+
+/-- a macro argument after its conversion to the parameter type -/
+theorem convArg_eq (cfg : Cfg) (p : CT) (x : CE) :
+    (if x.ty.eqv p.toVT = true then x else initACast cfg p.toVT x) = initACast cfg p.toVT x := by
+  split
+  · next h => rw [initACast_of_eqv]; rw [eqv_comm]; exact h
+  · rfl
+
+/-- what `constArg` says: the argument, compiled by the repaired lowering and converted, evaluates to that number -/
+theorem constArg_eval {asg : List String} {a : CExpr} {p : CT} {k : Nat} (h : constArg asg a p = some k) {ca : CE}
+    (hc : compileExpr ⟨asg, Cfg.fixed⟩ a = .ok ca) (lets : List (String × Val)) :
+    ∃ w, ∃ x : BitVec w, evalPure ms σ lets (if ca.ty.eqv p.toVT = true then ca else initACast Cfg.fixed p.toVT ca).il = .ok (.bv w x) ∧
+      x.toNat = k := by
+  unfold constArg at h
+  rw [hc] at h
+  simp only at h
+  split at h
+  · next sg w v hil =>
+    simp only [Option.some.injEq] at h
+    exact ⟨w, BitVec.ofInt w v, by rw [hil, evalPure_const], h⟩
+  · cases h
+
+/-- the two constant arguments `start`, `len` of a low-bits macro call, as the repaired lowering compiles them -/
+theorem tail_consts {asg : List String} {s l : CExpr} {ps pl : CT} {st ln : Nat} (hs : constArg asg s ps = some st)
+    (hl : constArg asg l pl = some ln) {ys : List ILPure}
+    (hT : compileArgs ⟨asg, Cfg.fixed⟩ [s, l] [ps, pl] = .ok ys) (lets : List (String × Val)) :
+    ∃ ws wl, ∃ (vs : BitVec ws) (vl : BitVec wl), evalPures ms σ lets ys = .ok [.bv ws vs, .bv wl vl] ∧
+      vs.toNat = st ∧ vl.toNat = ln := by
+  rw [compileArgs_cons] at hT
+  obtain ⟨cs, hcs, hT⟩ := C05.bind_ok hT
+  simp only at hT
+  obtain ⟨rest, hrest, hT⟩ := C05.bind_ok hT
+  rw [compileArgs_cons] at hrest
+  obtain ⟨cl, hcl, hrest⟩ := C05.bind_ok hrest
+  simp only [compileArgs_nil, bind, Except.bind, Except.ok.injEq] at hrest hT
+  subst hrest
+  subst hT
+  obtain ⟨ws, vs, evs, hvs⟩ := constArg_eval (ms := ms) (σ := σ) hs hcs lets
+  obtain ⟨wl, vl, evl, hvl⟩ := constArg_eval (ms := ms) (σ := σ) hl hcl lets
+  refine ⟨ws, wl, vs, vl, ?_, hvs, hvl⟩
+  rw [evalPures_cons, evalPures_cons, evalPures_nil, evs, evl]
+  rfl
+
+/-- **low-bits macro call, semantically**: the first argument may be converted differently by the two lowerings above
+    its own width (`lowSafe`) when the macro reads the bits below `start + len ≤ width` only (`MsLow`) -/
+theorem macro_args_low (hlow : MsLow ms) {name : String} (hname : name ∈ lowMacros) {asg : List String} {s l : CExpr}
+    {p ps pl : CT} (hp : p.width = 64) {st ln : Nat} (hs : constArg asg s ps = some st) (hl : constArg asg l pl = some ln)
+    {ca fa : CE} (ra : CERel ms σ ca fa) (hsa : SortOK ms σ fa)
+    (hsafe : (CastSafeSem p.toVT ca || lowSafe (some (st + ln)) ca) = true)
+    {xs ys : List ILPure} (hT : compileArgs ⟨asg, Cfg.fixed⟩ [s, l] [ps, pl] = .ok ys) (rt : PsEqAt ms σ [] xs ys) :
+    PEqAt ms σ [] (.macro (macroRzName name) ((initACast Cfg.asCode p.toVT ca).il :: xs))
+      (.macro (macroRzName name) ((initACast Cfg.fixed p.toVT fa).il :: ys)) := by
+  by_cases hcs : CastSafeSem p.toVT ca = true
+  · exact PEqAt.macro _ (PsEqAt.cons (initACast_sem p.toVT ra hsa hcs).il rt)
+  · simp only [hcs, Bool.false_or, lowSafe, Bool.and_eq_true, Bool.not_eq_true', decide_eq_true_eq] at hsafe
+    obtain ⟨hfl, hk⟩ := hsafe
+    have hne : ¬ p.toVT.eqv ca.ty = true := by
+      intro he; apply hcs; unfold CastSafeSem CastSafe; rw [he]; rfl
+    have hne' : ¬ p.toVT.eqv fa.ty = true := by rw [← ra.ty]; exact hne
+    have hfl' : fa.ty.hasFlag VT.gBOOL = false := by rw [← ra.ty]; exact hfl
+    have hw : p.toVT.width = 64 := hp
+    obtain ⟨ws, wl, vs, vl, hev, hvs, hvl⟩ := tail_consts (ms := ms) (σ := σ) hs hl hT []
+    -- the two conversions are casts to 64 bit with (possibly) different fill operands
+    have eA : (initACast Cfg.asCode p.toVT ca).il =
+        .cast 64 (if p.toVT.signed && ca.ty.signed then .un .msb ca.il else .bfalse) ca.il := by
+      unfold initACast
+      rw [if_neg hne]
+      simp only [hfl, Bool.false_and, Bool.false_eq_true, if_false, cfgsimp, if_true, hw]
+    have eF : (initACast Cfg.fixed p.toVT fa).il = .cast 64 (if fa.ty.signed then .un .msb fa.il else .bfalse) fa.il := by
+      unfold initACast
+      rw [if_neg hne']
+      simp only [hfl', Bool.false_and, Bool.false_eq_true, if_false, cfgsimp, hw]
+    rw [eA, eF]
+    -- step 1: replace the operand of the code's cast by the repaired lowering's (equivalent) operand
+    have step1 : PEqAt ms σ [] (.macro (macroRzName name) (.cast 64 (if p.toVT.signed && ca.ty.signed then .un .msb ca.il else .bfalse) ca.il :: xs))
+        (.macro (macroRzName name) (.cast 64 (if p.toVT.signed && ca.ty.signed then .un .msb fa.il else .bfalse) fa.il :: ys)) := by
+      refine PEqAt.macro _ (PsEqAt.cons (PEqAt.cast 64 ?_ ra.il) rt)
+      split
+      · exact PEqAt.un _ ra.il
+      · exact PEqAt.refl _
+    refine PEqAt.trans step1 ?_
+    -- step 2: the fill operand is irrelevant below the width of the operand
+    have hbool : ∀ (b : Bool) n (y : BitVec n), evalPure ms σ [] fa.il = .ok (.bv n y) →
+        ∃ r, evalPure ms σ [] (if b = true then ILPure.un .msb fa.il else .bfalse) = .ok (.bool r) := by
+      intro b n y hy
+      cases b
+      · exact ⟨false, by simp only [Bool.false_eq_true, if_false]; exact evalPure_bfalse ms σ []⟩
+      · exact ⟨y.msb, by simp only [if_true]; exact evalPure_msb_of_bv hy⟩
+    refine macro_cast_fill_low hlow hname hev (hbool _) (hbool _) ?_
+    rw [hvs, hvl]
+    exact hsa.width_le hfl' (by rw [← ra.ty]; exact hk)
+
+end
+
 /-! ## all expressions -/
 
 section
-variable (ms : MacroSem) (hms : MsOK ms) (c : Ctx) (σ : MState) (hinv : C05.SInv c σ) (asg : List String)
+variable (ms : MacroSem) (hms : MsOK ms) (c : Ctx) (σ : MState) (hinv : C05.SInv c σ) (asg : List String) (lb : Bool)
 
 /-- the statement for one expression -/
 def PNS (e : CExpr) : Prop :=
-  CarveNSem asg e = true → WFES c e = true →
+  CarveNSem asg e lb = true → WFES c e = true →
     ResRel (fun a f => CERel ms σ (normTy e a) f) (compileExpr ⟨asg, Cfg.asCode⟩ e) (compileExpr ⟨asg, Cfg.fixed⟩ e)
 
 def PNSs (args : List CExpr) : Prop :=
-  ∀ params, CarveNsSem asg args params = true → WFESs c args params = true →
+  ∀ params, CarveNsSem asg args params lb = true → WFESs c args params = true →
     ResRel (fun as fs => PsEqAt ms σ [] as fs) (compileArgs ⟨asg, Cfg.asCode⟩ args params)
       (compileArgs ⟨asg, Cfg.fixed⟩ args params)
 
-variable {ms c σ asg}
+/-- the statement for every argument of a list (the induction hypothesis of a macro call) -/
+def PNSall (args : List CExpr) : Prop := ∀ a, a ∈ args → PNS ms c σ asg lb a
+
+variable {ms c σ asg lb}
 
 /-- value operand -/
-theorem PNS.val {e : CExpr} (ih : PNS ms c σ asg e) (hc : CarveNSem asg e = true) (hn : isNotLog e = false)
+theorem PNS.val {e : CExpr} (ih : PNS ms c σ asg lb e) (hc : CarveNSem asg e lb = true) (hn : isNotLog e = false)
     (hwf : WFES c e = true) :
     ResRel (CERel ms σ) (compileExpr ⟨asg, Cfg.asCode⟩ e) (compileExpr ⟨asg, Cfg.fixed⟩ e) :=
   (ih hc hwf).mono (fun a f h => by rw [normTy_of_not hn] at h; exact h)
 
-theorem pns_of_pn {e : CExpr} (hpn : PN asg e) (hcarve : CarveNSem asg e = true → CarveN asg e = true) :
-    PNS ms c σ asg e := by
+theorem pns_of_pn {e : CExpr} (hpn : PN asg e) (hcarve : CarveNSem asg e lb = true → CarveN asg e = true) :
+    PNS ms c σ asg lb e := by
   intro hc _
   exact ResRel.of_map (hpn (hcarve hc)) (fun a => CERel.refl _)
 
 include hms hinv
 
-theorem pns_cast (t e) (ih : PNS ms c σ asg e) : PNS ms c σ asg (.cast t e) := by
+theorem pns_cast (t e) (ih : PNS ms c σ asg lb e) : PNS ms c σ asg lb (.cast t e) := by
   intro hc hwf
   rw [CarveNSem] at hc
   simp only [Bool.and_eq_true, Bool.not_eq_true'] at hc
@@ -391,7 +493,7 @@ theorem pns_cast (t e) (ih : PNS ms c σ asg e) : PNS ms c σ asg (.cast t e) :=
   simp only [castIf_eq', normTy_of_not (e := .cast t e) rfl]
   exact initACast_sem _ r hs (onA_ok h3 hA)
 
-theorem pns_un (op e) (ih : PNS ms c σ asg e) : PNS ms c σ asg (.un op e) := by
+theorem pns_un (op e) (ih : PNS ms c σ asg lb e) : PNS ms c σ asg lb (.un op e) := by
   intro hc hwf
   rw [CarveNSem] at hc
   simp only [Bool.and_eq_true, Bool.not_eq_true'] at hc
@@ -404,7 +506,7 @@ theorem pns_un (op e) (ih : PNS ms c σ asg e) : PNS ms c σ asg (.un op e) := b
   exact unOfCE_sem op r hs (onA_ok h3 hA)
 
 omit hms hinv in
-theorem pns_not (e) (ih : PNS ms c σ asg e) : PNS ms c σ asg (.not e) := by
+theorem pns_not (e) (ih : PNS ms c σ asg lb e) : PNS ms c σ asg lb (.not e) := by
   intro hc hwf
   rw [CarveNSem] at hc
   simp only [Bool.and_eq_true] at hc
@@ -416,7 +518,7 @@ theorem pns_not (e) (ih : PNS ms c σ asg e) : PNS ms c σ asg (.not e) := by
   simp only [ResRel, normTy, isNotLog, if_true, cfgsimp, Bool.false_eq_true, if_false]
   exact ⟨rfl, rfl, PEqAt.un _ hcond⟩
 
-theorem pns_bin (op a b) (iha : PNS ms c σ asg a) (ihb : PNS ms c σ asg b) : PNS ms c σ asg (.bin op a b) := by
+theorem pns_bin (op a b) (iha : PNS ms c σ asg lb a) (ihb : PNS ms c σ asg lb b) : PNS ms c σ asg lb (.bin op a b) := by
   intro hc hwf
   rw [CarveNSem] at hc
   simp only [Bool.and_eq_true, Bool.not_eq_true'] at hc
@@ -431,7 +533,7 @@ theorem pns_bin (op a b) (iha : PNS ms c σ asg a) (ihb : PNS ms c σ asg b) : P
   rw [normTy_of_not (e := .bin op a b) rfl]; exact h
 
 omit hms hinv in
-theorem pns_shift (op a b) (iha : PNS ms c σ asg a) (ihb : PNS ms c σ asg b) : PNS ms c σ asg (.shift op a b) := by
+theorem pns_shift (op a b) (iha : PNS ms c σ asg lb a) (ihb : PNS ms c σ asg lb b) : PNS ms c σ asg lb (.shift op a b) := by
   intro hc hwf
   rw [CarveNSem] at hc
   simp only [Bool.and_eq_true, Bool.not_eq_true'] at hc
@@ -450,7 +552,7 @@ theorem pns_shift (op a b) (iha : PNS ms c σ asg a) (ihb : PNS ms c σ asg b) :
   simp only [ra.ty]
   exact PEqAt.bin _ ra.il hbil
 
-theorem pns_cmp (op a b) (iha : PNS ms c σ asg a) (ihb : PNS ms c σ asg b) : PNS ms c σ asg (.cmp op a b) := by
+theorem pns_cmp (op a b) (iha : PNS ms c σ asg lb a) (ihb : PNS ms c σ asg lb b) : PNS ms c σ asg lb (.cmp op a b) := by
   intro hc hwf
   rw [CarveNSem] at hc
   simp only [Bool.and_eq_true, Bool.not_eq_true'] at hc
@@ -508,7 +610,7 @@ theorem log_conds_sem (a b : CExpr) {ca cb fa fb : CE} (ra : CERel ms σ (normTy
       exact ⟨condIL_initACast_sem _ ra hsa s1' e1,
         condIL_initACast_sem _ rb hsb s2' e2⟩
 
-theorem pns_log (op a b) (iha : PNS ms c σ asg a) (ihb : PNS ms c σ asg b) : PNS ms c σ asg (.log op a b) := by
+theorem pns_log (op a b) (iha : PNS ms c σ asg lb a) (ihb : PNS ms c σ asg lb b) : PNS ms c σ asg lb (.log op a b) := by
   intro hc hwf
   rw [CarveNSem] at hc
   simp only [Bool.and_eq_true] at hc
@@ -531,12 +633,18 @@ theorem ternOfCE_sem (x : CExpr) {cc ca cb fc fa fb : CE} (rc : CERel ms σ (nor
   unfold ternOfCE
   have hk : cc.kind = fc.kind := by rw [← rc.kind, normTy_kind]
   simp only [cfgsimp, if_true, Bool.false_eq_true, if_false, ← hk]
-  have hconst : (decide (32 ≤ ca.ty.width) && decide (32 ≤ cb.ty.width) && ca.ty.eqv cb.ty) = true →
-      castOperands Cfg.fixed (promotionCast Cfg.fixed fa) (promotionCast Cfg.fixed fb) = (fa, fb) := by
-    intro h
-    simp only [Bool.and_eq_true, decide_eq_true_eq] at h
-    rw [promotionCast_of_wide _ _ (ra.ty ▸ h.1.1), promotionCast_of_wide _ _ (rb.ty ▸ h.1.2),
-      castOperands_of_eqv _ _ _ (by rw [← ra.ty, ← rb.ty]; exact h.2)]
+  -- constant condition: the repaired lowering returns its live arm as it is, too (`liveKeepsTy`, `liveArm_fixed`)
+  have hconst : ∀ first : Bool, liveKeepsTy first ca cb = true →
+      CERel ms σ (if first = true then ca else cb)
+        (if first = true then (castOperands Cfg.fixed (promotionCast Cfg.fixed fa) (promotionCast Cfg.fixed fb)).1
+         else (castOperands Cfg.fixed (promotionCast Cfg.fixed fa) (promotionCast Cfg.fixed fb)).2) := by
+    intro first h
+    have h' : liveKeepsTy first fa fb = true := by
+      unfold liveKeepsTy at h ⊢; rw [← ra.ty, ← rb.ty]; exact h
+    rw [liveArm_fixed first fa fb h']
+    cases first with
+    | true => exact ra
+    | false => exact rb
   have hwide : condSafe x cc = true ∧ wideSafeSem ca cb = true →
       CERel ms σ { il := .ite (condIL Cfg.asCode cc) (castOperands Cfg.asCode ca cb).1.il (castOperands Cfg.asCode ca cb).2.il,
                    ty := (castOperands Cfg.asCode ca cb).1.ty, kind := .plain }
@@ -554,16 +662,10 @@ theorem ternOfCE_sem (x : CExpr) {cc ca cb fc fa fb : CE} (rc : CERel ms σ (nor
   cases hkc : cc.kind with
   | lit v =>
     simp only [hkc] at h
-    simp only [hconst h]
-    split
-    · exact ra
-    · exact rb
+    exact hconst _ h
   | boolLit r =>
     simp only [hkc] at h
-    simp only [hconst h]
-    split
-    · exact ra
-    · exact rb
+    exact hconst _ h
   | plain =>
     simp only [hkc, Bool.and_eq_true] at h
     exact hwide h
@@ -571,8 +673,8 @@ theorem ternOfCE_sem (x : CExpr) {cc ca cb fc fa fb : CE} (rc : CERel ms σ (nor
     simp only [hkc, Bool.and_eq_true] at h
     exact hwide h
 
-theorem pns_tern (x a b) (ihc : PNS ms c σ asg x) (iha : PNS ms c σ asg a) (ihb : PNS ms c σ asg b) :
-    PNS ms c σ asg (.tern x a b) := by
+theorem pns_tern (x a b) (ihc : PNS ms c σ asg lb x) (iha : PNS ms c σ asg lb a) (ihb : PNS ms c σ asg lb b) :
+    PNS ms c σ asg lb (.tern x a b) := by
   intro hc hwf
   rw [CarveNSem] at hc
   simp only [Bool.and_eq_true, Bool.not_eq_true'] at hc
@@ -588,45 +690,100 @@ theorem pns_tern (x a b) (ihc : PNS ms c σ asg x) (iha : PNS ms c σ asg a) (ih
   exact ternOfCE_sem x rc ra rb hsa hsb (onA_ok (onA_ok (onA_ok hs hC) hA) hB)
 
 omit hms hinv in
-theorem pnss_nil : PNSs ms c σ asg [] := by
+theorem pnss_nil : PNSs ms c σ asg lb [] := by
   intro params _ _
   simp only [compileArgs_nil]
   exact PsEqAt.refl _
 
-theorem pnss_cons (a as) (iha : PNS ms c σ asg a) (ihas : PNSs ms c σ asg as) : PNSs ms c σ asg (a :: as) := by
+theorem pnss_cons (a as) (iha : PNS ms c σ asg lb a) (ihas : PNSs ms c σ asg lb as) : PNSs ms c σ asg lb (a :: as) := by
   intro params hc hwf
   cases params with
   | nil => simp only [compileArgs_cons_nil]; trivial
   | cons p ps =>
     rw [CarveNsSem] at hc
-    simp only [Bool.and_eq_true, Bool.not_eq_true'] at hc
+    simp only [Bool.and_eq_true, Bool.not_eq_true', lowSafe, Bool.or_false] at hc
     obtain ⟨⟨⟨ha, hna⟩, hs⟩, has⟩ := hc
     simp only [WFESs, Bool.and_eq_true] at hwf
     simp only [compileArgs_cons]
     refine (iha.val ha hna hwf.1.1).bind (fun ca fa hA hF ra => ?_)
     have hsa := sortOK_fixed hms hinv rfl hwf.1.1 hF
-    have e : ∀ (cfg : Cfg) (x : CE), (if x.ty.eqv p.toVT = true then x else initACast cfg p.toVT x) = initACast cfg p.toVT x := by
-      intro cfg x
-      split
-      · next h => rw [initACast_of_eqv]; rw [eqv_comm]; exact h
-      · rfl
-    simp only [e]
+    simp only [convArg_eq]
     have r := initACast_sem p.toVT ra hsa (onA_ok hs hA)
     refine (ihas ps has hwf.2).bind (fun xs ys _ _ rs => ?_)
     exact PsEqAt.cons r.il rs
 
-omit hms hinv in
-theorem pns_macro (name args ret params) (ih : PNSs ms c σ asg args) : PNS ms c σ asg (.macro name args ret params) := by
+theorem pnss_of_all : (args : List CExpr) → PNSall ms c σ asg lb args → PNSs ms c σ asg lb args
+  | [], _ => pnss_nil
+  | a :: as, h => pnss_cons hms hinv a as (h a (List.mem_cons_self ..))
+      (pnss_of_all as (fun x hx => h x (List.mem_cons_of_mem _ hx)))
+
+/-- a macro call: all arguments converted alike (`lb = false`, or no low-bits call), or a low-bits macro whose first
+    argument may differ above its own width (assumption `MsLow ms`) -/
+theorem pns_macro (hlb : lb = true → MsLow ms) (name args ret params) (ih : PNSall ms c σ asg lb args) :
+    PNS ms c σ asg lb (.macro name args ret params) := by
   intro hc hwf
   rw [CarveNSem] at hc
   simp only [WFES, Bool.and_eq_true] at hwf
   simp only [compileExpr_macro]
-  refine (ih params hc hwf.1).bind (fun xs ys _ _ rs => ?_)
-  simp only [ResRel, normTy_of_not (e := .macro name args ret params) rfl]
-  exact ⟨rfl, rfl, PEqAt.macro _ rs⟩
+  -- the plain case: every argument is converted alike
+  have plain : CarveNsSem asg args params lb = true →
+      ResRel (fun a f => CERel ms σ (normTy (.macro name args ret params) a) f)
+        (compileArgs ⟨asg, Cfg.asCode⟩ args params >>= fun cargs =>
+          Except.ok { il := .macro (macroRzName name) cargs, ty := macroRetVT name, kind := .plain })
+        (compileArgs ⟨asg, Cfg.fixed⟩ args params >>= fun cargs =>
+          Except.ok { il := .macro (macroRzName name) cargs, ty := macroRetVT name, kind := .plain }) := by
+    intro hc'
+    refine (pnss_of_all hms hinv args ih params hc' hwf.1).bind (fun xs ys _ _ rs => ?_)
+    simp only [ResRel, normTy_of_not (e := .macro name args ret params) rfl]
+    exact ⟨rfl, rfl, PEqAt.macro _ rs⟩
+  cases hlbv : lb with
+  | false => rw [hlbv] at hc; simp only [Bool.false_eq_true, if_false] at hc; rw [hlbv] at plain; exact plain hc
+  | true =>
+    have hlow := hlb hlbv
+    rw [hlbv] at hc
+    simp only [if_true] at hc
+    cases hlo : lowBitsOf asg name args params with
+    | none => rw [hlo] at hc; rw [hlbv] at plain; exact plain hc
+    | some k =>
+      rw [hlo] at hc
+      -- a low-bits macro call `name(a, s, l)` with constant `s`, `l`
+      unfold lowBitsOf at hlo
+      split at hlo
+      · next a s l p ps pl =>
+        split at hlo
+        · next hcond =>
+          simp only [Bool.and_eq_true, List.contains_eq_mem, decide_eq_true_eq, beq_iff_eq] at hcond
+          split at hlo
+          · next st ln hst hln =>
+            simp only [Option.some.injEq] at hlo
+            subst hlo
+            rw [CarveNsSem] at hc
+            simp only [Bool.and_eq_true, Bool.not_eq_true'] at hc
+            obtain ⟨⟨⟨ha, hna⟩, hs⟩, has⟩ := hc
+            have hwf1 := hwf.1
+            rw [WFESs] at hwf1
+            simp only [Bool.and_eq_true] at hwf1
+            have iha : PNS ms c σ asg lb a := ih a (List.mem_cons_self ..)
+            have ihas : PNSs ms c σ asg lb [s, l] :=
+              pnss_of_all hms hinv [s, l] (fun x hx => ih x (List.mem_cons_of_mem _ hx))
+            rw [hlbv] at iha ihas
+            have hargs : ResRel (fun as fs => PEqAt ms σ [] (.macro (macroRzName name) as) (.macro (macroRzName name) fs))
+                (compileArgs ⟨asg, Cfg.asCode⟩ [a, s, l] [p, ps, pl]) (compileArgs ⟨asg, Cfg.fixed⟩ [a, s, l] [p, ps, pl]) := by
+              simp only [compileArgs_cons (a := a)]
+              refine (iha.val ha hna hwf1.1.1).bind (fun ca fa hA hF ra => ?_)
+              have hsa := sortOK_fixed hms hinv rfl hwf1.1.1 hF
+              simp only [convArg_eq]
+              refine (ihas [ps, pl] has hwf1.2).bind (fun xs ys _ hT rs => ?_)
+              exact macro_args_low hlow hcond.1 hcond.2 hst hln ra hsa (onA_ok hs hA) hT rs
+            refine hargs.bind (fun as fs _ _ h => ?_)
+            simp only [ResRel, normTy_of_not (e := .macro name [a, s, l] ret [p, ps, pl]) rfl]
+            exact ⟨rfl, rfl, h⟩
+          · cases hlo
+        · cases hlo
+      · cases hlo
 
 omit hms hinv in
-theorem pns_load (sg w t) : PNS ms c σ asg (.load sg w t) := by
+theorem pns_load (sg w t) : PNS ms c σ asg lb (.load sg w t) := by
   intro hc _
   rw [CarveNSem] at hc
   simp only [compileExpr_load, cfgsimp, if_true, Bool.false_eq_true, if_false, ResRel,
@@ -649,8 +806,8 @@ theorem pns_load (sg w t) : PNS ms c σ asg (.load sg w t) := by
       · cases hy
     · simp only [Bool.and_self, if_true]; exact PEqAt.refl _
 
-theorem pns_all (e : CExpr) : PNS ms c σ asg e := by
-  refine CExpr.rec (motive_1 := PNS ms c σ asg) (motive_2 := PNSs ms c σ asg)
+theorem pns_all (hlb : lb = true → MsLow ms) (e : CExpr) : PNS ms c σ asg lb e := by
+  refine CExpr.rec (motive_1 := PNS ms c σ asg lb) (motive_2 := PNSall ms c σ asg lb)
     ?reg ?imm ?lit ?var ?cast ?un ?not ?bin ?shift ?cmp ?log ?tern ?macroc ?load ?post ?call ?stmtexpr ?seqexpr ?callx ?xmacro ?nil ?cons e
   case reg => exact fun n k t => pns_of_pn (pn_reg asg n k t) (fun h => by rw [CarveNSem] at h; rw [CarveN]; exact h)
   case imm => exact fun l s => pns_of_pn (pn_imm asg l s) (fun _ => by rw [CarveN])
@@ -664,7 +821,7 @@ theorem pns_all (e : CExpr) : PNS ms c σ asg e := by
   case cmp => exact fun op a b iha ihb => pns_cmp hms hinv op a b iha ihb
   case log => exact fun op a b iha ihb => pns_log hms hinv op a b iha ihb
   case tern => exact fun x a b ihc iha ihb => pns_tern hms hinv x a b ihc iha ihb
-  case macroc => exact fun name args ret params ih => pns_macro name args ret params ih
+  case macroc => exact fun name args ret params ih => pns_macro hms hinv hlb name args ret params ih
   case load => exact fun s w t => pns_load s w t
   case post => intro v t op hc; rw [CarveNSem] at hc; cases hc
   case call => intro n a r p _ hc; rw [CarveNSem] at hc; cases hc
@@ -672,28 +829,45 @@ theorem pns_all (e : CExpr) : PNS ms c σ asg e := by
   case seqexpr => intro n x a p v _ _ hc; rw [CarveNSem] at hc; cases hc
   case callx => intro n x a r p _ hc; rw [CarveNSem] at hc; cases hc
   case xmacro => intro n x r hc; rw [CarveNSem] at hc; cases hc
-  case nil => exact pnss_nil
-  case cons => exact fun a as iha ihas => pnss_cons hms hinv a as iha ihas
+  case nil => exact fun a ha => by cases ha
+  case cons =>
+    intro a as iha ihas x hx
+    rcases List.mem_cons.1 hx with rfl | hx
+    · exact iha
+    · exact ihas x hx
 
 end
 
-/-! ## the theorems -/
+/-! ## the theorems
+
+  Each theorem is stated for the carve-out with the low-bits flag `lb` and the hypothesis `lb = true → MsLow ms`; the
+  form without flag (`lb = false`: no assumption beyond `MsOK ms`) follows by `(fun h => nomatch h)`. -/
 
 /-- **T2-semantic, node-wise**: on a semantically carved, statically well-formed expression the two lowerings fail
     together or return results of the same kind, the same type up to the type of a `!`/`&&`/`||` at the top
     (`normTy`), and IL that evaluates alike in every typed state. -/
+theorem expr_sem_upto_boolTy_low {ms : MacroSem} (hms : MsOK ms) {lb : Bool} (hlb : lb = true → MsLow ms) {c : Ctx} {σ : MState}
+    (hinv : C05.SInv c σ) (asg : List String) (e : CExpr) (hc : CarveNSem asg e lb = true) (hwf : WFES c e = true) :
+    ResRel (fun a f => CERel ms σ (normTy e a) f) (compileExpr ⟨asg, Cfg.asCode⟩ e) (compileExpr ⟨asg, Cfg.fixed⟩ e) :=
+  pns_all hms hinv hlb e hc hwf
+
 theorem expr_sem_upto_boolTy {ms : MacroSem} (hms : MsOK ms) {c : Ctx} {σ : MState} (hinv : C05.SInv c σ)
     (asg : List String) (e : CExpr) (hc : CarveNSem asg e = true) (hwf : WFES c e = true) :
     ResRel (fun a f => CERel ms σ (normTy e a) f) (compileExpr ⟨asg, Cfg.asCode⟩ e) (compileExpr ⟨asg, Cfg.fixed⟩ e) :=
-  pns_all hms hinv e hc hwf
+  expr_sem_upto_boolTy_low hms (lb := false) (fun h => nomatch h) hinv asg e hc hwf
 
 /-- **T2-semantic for expressions** used as values: equal `ty`, equal `kind`, equivalent `il` -/
-theorem expr_sem {ms : MacroSem} (hms : MsOK ms) {c : Ctx} {σ : MState} (hinv : C05.SInv c σ)
-    (env : CEnv) (e : CExpr) (hc : CarveESem env.assigned e = true) (hwf : WFES c e = true) :
+theorem expr_sem_low {ms : MacroSem} (hms : MsOK ms) {lb : Bool} (hlb : lb = true → MsLow ms) {c : Ctx} {σ : MState}
+    (hinv : C05.SInv c σ) (env : CEnv) (e : CExpr) (hc : CarveESem env.assigned e lb = true) (hwf : WFES c e = true) :
     ResRel (CERel ms σ) (compileExpr (codeEnv env) e) (compileExpr (fixedEnv env) e) := by
   unfold CarveESem at hc
   simp only [Bool.and_eq_true, Bool.not_eq_true'] at hc
-  exact (pns_all hms hinv e).val hc.1 hc.2 hwf
+  exact (pns_all hms hinv hlb e).val hc.1 hc.2 hwf
+
+theorem expr_sem {ms : MacroSem} (hms : MsOK ms) {c : Ctx} {σ : MState} (hinv : C05.SInv c σ)
+    (env : CEnv) (e : CExpr) (hc : CarveESem env.assigned e = true) (hwf : WFES c e = true) :
+    ResRel (CERel ms σ) (compileExpr (codeEnv env) e) (compileExpr (fixedEnv env) e) :=
+  expr_sem_low hms (lb := false) (fun h => nomatch h) hinv env e hc hwf
 
 /-- **T2-semantic for expressions, uniformly in the state**: if the lowering as coded succeeds on a semantically carved,
     statically well-formed expression, so does the repaired lowering, with the same type and kind, and the two ILs
